@@ -362,7 +362,7 @@ def check_property(prop, tier, seed, keep=False, only=None):
     t0 = time.time()
     rn = Runner(prop, tier, seed, keep)
     mod = rn.mod
-    evidence_path = os.path.join(VERIF, 'evidence', prop + '.json')
+    evidence_path = os.path.join(os.environ.get('VF_EVIDENCE_DIR', os.path.join(VERIF, 'evidence')), prop + '.json')
     exit_code = 0
     lines = []
     results = []
@@ -398,7 +398,7 @@ def check_property(prop, tier, seed, keep=False, only=None):
                 if k:
                     known_hits.append((k, u, fl))
                     continue
-                path, native = rn.make_replay(u, ginfos[u.group], fl, os.path.join(VERIF, 'replay', 'out', prop))
+                path, native = rn.make_replay(u, ginfos[u.group], fl, os.path.join(os.environ.get('VF_REPLAY_DIR', os.path.join(VERIF, 'replay', 'out')), prop))
                 fl['replay'] = path
                 fl['native'] = native.get('outcome')
                 suffix = '' if native.get('outcome') == 'confirmed' else ' no-failing-input-found'
